@@ -48,10 +48,54 @@ type raceTrace struct {
 	paused  int                  // inside sync.Once.Do / pool internals
 	seenEv  map[string]bool
 	nEvents int
+	// publication inside a critical section: an object that becomes shared
+	// while a mutex is held exclusively stays private to the publishing call
+	// until that critical section ends (any other call can only obtain the
+	// pointer through the shared location, whose own accesses are checked).
+	epoch  map[uintptr]int            // mutex -> number of acquisitions so far
+	pub    map[uintptr]map[uintptr]int // cell -> {mutex: epoch} held exclusively at publication
+	pubCtx map[uintptr]int            // non-nil while a publication is being marked
+}
+
+// mark records addr as shared; it reports whether it was new.
+func (rt *raceTrace) mark(a uintptr, name string) bool {
+	if _, done := rt.shared[a]; done {
+		return false
+	}
+	rt.shared[a] = name
+	if rt.pubCtx != nil {
+		rt.pub[a] = rt.pubCtx
+	}
+	return true
+}
+
+// exclHeld returns the exclusively held mutexes with their epochs.
+func (rt *raceTrace) exclHeld() map[uintptr]int {
+	var m map[uintptr]int
+	for mu, mode := range rt.held {
+		if mode == lockExcl {
+			if m == nil {
+				m = map[uintptr]int{}
+			}
+			m[mu] = rt.epoch[mu]
+		}
+	}
+	return m
+}
+
+// publish marks v shared as the consequence of a store into a shared location.
+func (i *interpreter) publish(v value, t types.Type, path string) {
+	rt := i.race
+	if rt.active {
+		rt.pubCtx = rt.exclHeld()
+	}
+	i.markShared(v, t, path, 0)
+	rt.pubCtx = nil
 }
 
 func newRaceTrace() *raceTrace {
-	return &raceTrace{shared: map[uintptr]string{}, events: map[uintptr][]raceEvent{}, held: map[uintptr]lockMode{}, seenEv: map[string]bool{}}
+	return &raceTrace{shared: map[uintptr]string{}, events: map[uintptr][]raceEvent{}, held: map[uintptr]lockMode{}, seenEv: map[string]bool{},
+		epoch: map[uintptr]int{}, pub: map[uintptr]map[uintptr]int{}}
 }
 
 func cellAddr(p *value) uintptr { return uintptr(unsafe.Pointer(p)) }
@@ -68,10 +112,9 @@ func (i *interpreter) markShared(v value, t types.Type, path string, depth int) 
 			return
 		}
 		a := cellAddr(x)
-		if _, done := rt.shared[a]; done {
+		if !rt.mark(a, path) {
 			return
 		}
-		rt.shared[a] = path
 		var et types.Type
 		if t != nil {
 			if pt, ok := t.Underlying().(*types.Pointer); ok {
@@ -98,18 +141,12 @@ func (i *interpreter) markShared(v value, t types.Type, path string, depth int) 
 				ft = st.Field(k).Type()
 				name = path + "." + st.Field(k).Name()
 			}
-			a := cellAddr(&x[k])
-			if _, done := rt.shared[a]; !done {
-				rt.shared[a] = name
-			}
+			rt.mark(cellAddr(&x[k]), name)
 			i.markShared(x[k], ft, name, depth+1)
 		}
 	case array:
 		for k := range x {
-			a := cellAddr(&x[k])
-			if _, done := rt.shared[a]; !done {
-				rt.shared[a] = fmt.Sprintf("%s[%d]", path, k)
-			}
+			rt.mark(cellAddr(&x[k]), fmt.Sprintf("%s[%d]", path, k))
 			i.markShared(x[k], nil, fmt.Sprintf("%s[%d]", path, k), depth+1)
 		}
 	case []value:
@@ -120,22 +157,18 @@ func (i *interpreter) markShared(v value, t types.Type, path string, depth int) 
 			}
 		}
 		for k := range x {
-			a := cellAddr(&x[k])
-			if _, done := rt.shared[a]; done {
+			if !rt.mark(cellAddr(&x[k]), fmt.Sprintf("%s[%d]", path, k)) {
 				continue
 			}
-			rt.shared[a] = fmt.Sprintf("%s[%d]", path, k)
 			i.markShared(x[k], et, fmt.Sprintf("%s[%d]", path, k), depth+1)
 		}
 	case *smap:
 		if x == nil {
 			return
 		}
-		a := uintptr(unsafe.Pointer(x))
-		if _, done := rt.shared[a]; done {
+		if !rt.mark(uintptr(unsafe.Pointer(x)), path+"{map}") {
 			return
 		}
-		rt.shared[a] = path + "{map}"
 		var vt types.Type
 		if t != nil {
 			if mt, ok := t.Underlying().(*types.Map); ok {
@@ -167,6 +200,12 @@ func (i *interpreter) raceAccess(addr uintptr, write bool, fr *frame, pos token.
 	}
 	if _, ok := rt.shared[addr]; !ok {
 		return
+	}
+	// still inside the critical section in which the object was published
+	for mu, ep := range rt.pub[addr] {
+		if rt.held[mu] == lockExcl && rt.epoch[mu] == ep {
+			return
+		}
 	}
 	fn := ""
 	if fr != nil {
@@ -291,7 +330,7 @@ func (i *interpreter) raceStore(T types.Type, addr *value, v value, fr *frame, p
 	a := cellAddr(addr)
 	i.raceAccess(a, true, fr, pos)
 	if path, ok := i.race.shared[a]; ok {
-		i.markShared(v, T, path, 0)
+		i.publish(v, T, path)
 	}
 }
 
@@ -325,6 +364,7 @@ func (i *interpreter) lockOp(m value, mode lockMode, acquire bool) {
 	}
 	a := cellAddr(p)
 	if acquire {
+		i.race.epoch[a]++
 		i.race.held[a] = mode
 	} else {
 		delete(i.race.held, a)
